@@ -1001,4 +1001,204 @@ example : (mainTail (({ verbosity := 0 } : Sys).reportErrors 0 7 [1, 2]) true).1
     (mainTail (({ verbosity := 0 } : Sys).report 3 1) true).1 = 3 ∧
     (mainTail ({ verbosity := 0 } : Sys) true).1 = 0 := by decide
 
+/-! ## round 3 -/
+
+/-! ### string literals as written: exact divergence of `extract_docstring_linenum`'s approximation -/
+
+theorem piece_identity (p : Piece) :
+    p.physNl + (if p = .escNl then 1 else 0) = p.valNl + (if p = .cont then 1 else 0) := by
+  cases p <;> simp [Piece.physNl, Piece.valNl]
+
+/-- physical newlines + `\n` escapes = value newlines + continuation breaks -/
+theorem phys_vs_value (ps : List Piece) : physNls ps + escNls ps = valNls ps + conts ps := by
+  induction ps with
+  | nil => simp [physNls, escNls, valNls, conts]
+  | cons p ps ih =>
+    have h := piece_identity p
+    simp only [physNls, escNls, valNls, conts, List.map_cons, List.sum_cons, List.filter_cons] at ih ⊢
+    by_cases h1 : p = .escNl <;> by_cases h2 : p = .cont <;> simp_all <;> omega
+
+/-- the value has exactly `valNls` newlines when ordinary characters are not newlines -/
+theorem valueOf_newlines (ps : List Piece) (h : ∀ c, Piece.ch c ∈ ps → c ≠ '\n') :
+    newlines (valueOf ps) = valNls ps := by
+  induction ps with
+  | nil => simp [newlines, valueOf, valNls]
+  | cons p ps ih =>
+    have ih' := ih (fun c hc => h c (List.mem_cons_of_mem _ hc))
+    simp only [newlines, valueOf, valNls, List.flatMap_cons, List.filter_append, List.length_append,
+      List.map_cons, List.sum_cons] at ih' ⊢
+    rw [ih']
+    cases p with
+    | ch c =>
+      have := h c (by simp)
+      simp [Piece.value, Piece.valNl, this]
+    | nl => simp [Piece.value, Piece.valNl]
+    | cont => simp [Piece.value, Piece.valNl]
+    | escNl => simp [Piece.value, Piece.valNl]
+
+/-- **literal_line_divergence**: the physical line of any position of a literal, against the line
+`sl + (newlines of the value before it)` that pydoctor's arithmetic uses: they differ by exactly
+(continuation breaks before the position) − (`\n` escapes before it). -/
+theorem literal_line_divergence (sl : Nat) (ps : List Piece) (k : Nat) :
+    physLineAt sl ps k + escNls (ps.take k) = sl + valueLineAt ps k + conts (ps.take k) := by
+  have := phys_vs_value (ps.take k)
+  simp only [physLineAt, valueLineAt]
+  omega
+
+/-- no continuation break and no `\n` escape before the position: the arithmetic is exact -/
+theorem literal_line_exact (sl : Nat) (ps : List Piece) (k : Nat)
+    (h1 : conts (ps.take k) = 0) (h2 : escNls (ps.take k) = 0) :
+    physLineAt sl ps k = sl + valueLineAt ps k := by
+  have := literal_line_divergence sl ps k
+  omega
+
+/-- `"""a\⏎b⏎X"""` on line 3: `X` is on physical line 5, on value line 1 (3 + 1 = 4). -/
+theorem literal_line_continuation_counterexample :
+    let ps := [Piece.ch 'a', .cont, .ch 'b', .nl, .ch 'X']
+    valueOf ps = "ab\nX".toList ∧ physLineAt 3 ps 4 = 5 ∧ 3 + valueLineAt ps 4 = 4 := by decide
+
+/-! ### `get_lineno` with the rawsource search -/
+
+theorem findSub_some (needle : List Char) (hay : List Char) (i : Nat)
+    (h : findSub needle hay = some i) : needle.isPrefixOf (hay.drop i) = true := by
+  induction hay generalizing i with
+  | nil =>
+    simp only [findSub] at h
+    split at h
+    · rename_i he
+      injection h with h; subst h
+      have : needle = [] := by simpa using he
+      simp [this]
+    · cases h
+  | cons c cs ih =>
+    simp only [findSub] at h
+    split at h
+    · rename_i hp
+      injection h with h; subst h
+      simpa using hp
+    · cases hf : findSub needle cs with
+      | none => simp [hf] at h
+      | some j =>
+        simp [hf] at h
+        subst h
+        simpa using ih j hf
+
+/-- reStructuredText cross-reference, with docutils' data: paragraph on (1-based) line `i + 1`,
+reference's rawsource first found at index `idx` of the paragraph's: offset = `i` + newlines before `idx` -/
+theorem rst_xref_offset_raw (i : Int) (h : 0 ≤ i) (ref para : List Char) (idx : Nat)
+    (hr : ref ≠ []) (hp : para ≠ []) (hf : findSub ref para = some idx) :
+    getLinenoRaw none ref [⟨some (i + 1), para⟩] = i + (newlines (para.take idx) : Nat) := by
+  have h1 : i + 1 ≠ 0 := by omega
+  have h2 : para.isEmpty = false := by cases para <;> simp_all
+  have h3 : ref.isEmpty = false := by cases ref <;> simp_all
+  simp [getLinenoRaw, getLineno, truthy, firstParentLineno, ancOf, h1, h2, h3, hf]
+
+example : getLinenoRaw none "`x`".toList [⟨some 3, "a b\nc `x` d".toList⟩] = 3 := by decide
+
+/-! ### `--process-types`: type-field warnings -/
+
+/-- `append_warnings(…, lineno=field.lineno+1)`: the offset is the field's line **plus one**.
+Full statement wanted: `typeWarningOffset i = i`. -/
+theorem type_warning_one_low (i : Int) (h : 0 ≤ i) : typeWarningOffset i = i + 1 :=
+  reportErrorsOffset_of_nonneg (i + 1) (by omega)
+
+/-- `@type a: list(str` on raw line 3 (physical 5) of a literal on line 2: reported on line 6 -/
+theorem type_warning_counterexample :
+    let doc := "\n    S.\n\n    @type a: list(str\n    ".toList
+    noOverIndent doc = true ∧
+      report (docObj 2 doc 1 false) .docstring
+        (typeWarningOffset (fieldStoredLineno docutilsBase .epytext ((3 : Int) - (dropped doc : Nat)))) = .num 6 := by
+  decide
+
+/-! ### the parser-level numbers behind `constructOffset` -/
+
+theorem constructOffset_error_eq (base : Int) (fmt : Fmt) (i j : Int) :
+    constructOffsetB base fmt .markupError i j = reportErrorsOffset (some (errorStoredLinenum base fmt i)) := by
+  cases fmt <;> rfl
+
+theorem constructOffset_field_eq (base : Int) (fmt : Fmt) (i j : Int) :
+    constructOffsetB base fmt .unknownField i j = fieldStoredLineno base fmt i ∧
+    constructOffsetB base fmt .badParam i j = fieldStoredLineno base fmt i := by
+  cases fmt <;> exact ⟨rfl, rfl⟩
+
+/-! ### an attribute documented by a class field and / or by its own docstring -/
+
+/-- only `@ivar x:` in the class docstring: the field's text is rendered and a problem on line
+`off` of the class docstring is reported at `classDl + off` -/
+theorem attr_field_only_correct (classDl f off : Int) :
+    let a := ({} : AttrDoc).extractField classDl f
+    a.rendersField = true ∧ a.xrefLine classDl off = classDl + off := by
+  simp [AttrDoc.extractField, AttrDoc.rendersField, AttrDoc.xrefLine, AttrDoc.reportBase]
+
+/-- only its own docstring -/
+theorem attr_own_only_correct (classDl dl off : Int) :
+    let a := ({} : AttrDoc).setDocstring dl
+    a.rendersField = false ∧ a.xrefLine classDl off = dl + off := by
+  simp [AttrDoc.setDocstring, AttrDoc.rendersField, AttrDoc.xrefLine, AttrDoc.reportBase]
+
+/-- both: the *field's* text is rendered but located with the *own* docstring's line.
+Full statement wanted: `a.xrefLine classDl off = classDl + off`; it holds only when the two
+docstrings start on the same line (they never do). -/
+theorem attr_both_partial (classDl f dl off : Int) :
+    let a := (({} : AttrDoc).extractField classDl f).setDocstring dl
+    a.rendersField = true ∧ a.xrefLine classDl off = dl + off ∧
+      (a.xrefLine classDl off = classDl + off ↔ dl = classDl) := by
+  simp [AttrDoc.extractField, AttrDoc.setDocstring, AttrDoc.rendersField, AttrDoc.xrefLine,
+    AttrDoc.reportBase]
+
+/-- class docstring from line 3 with `@ivar x: L{zq}` on its line 2 (physical 5), inline docstring
+of `x` from line 11: `zq` is reported on line 13 -/
+theorem attr_both_counterexample :
+    ((({} : AttrDoc).extractField 3 2).setDocstring 11).xrefLine 3 2 = 13 ∧ (3 : Int) + 2 = 5 := by decide
+
+/-! ### napoleon parameter sections: the converted line against the written line -/
+
+theorem sum_out_google (es : List Entry) :
+    (es.map (Entry.outLines false)).sum = (es.map (Entry.inLines false)).sum + typedCount es := by
+  induction es with
+  | nil => simp [typedCount]
+  | cons e es ih =>
+    simp only [List.map_cons, List.sum_cons, typedCount, List.filter_cons] at ih ⊢
+    by_cases h : e.typed <;> simp [Entry.outLines, Entry.inLines, Entry.paramLines, h] <;> omega
+
+/-- google: `:param name:` of entry `k` sits `(typed entries before it) − 1` lines below the line
+the entry is written on (the header line disappears, every earlier type adds a line) -/
+theorem napoleon_param_divergence_google (hdr : Nat) (es : List Entry) (k : Nat) :
+    paramOutLine false hdr es k + 1 = entryInLine false hdr es k + typedCount (es.take k) := by
+  simp only [paramOutLine, entryInLine, headerLines, sum_out_google]
+  simp; omega
+
+/-- google, section at the end of the docstring: the converted text is longer than the written
+one by `typedCount − 1` lines; its last line lies past the last written line iff at least two
+entries are typed — exactly the inputs on which a report can leave the docstring. -/
+theorem napoleon_google_overflow_iff (hdr : Nat) (es : List Entry) :
+    hdr + (es.map (Entry.outLines false)).sum > hdr + 1 + (es.map (Entry.inLines false)).sum ↔
+      2 ≤ typedCount es := by
+  rw [sum_out_google]; omega
+
+theorem sum_out_numpy (es : List Entry) (h : ∀ e ∈ es, 1 ≤ e.extra) :
+    (es.map (Entry.outLines true)).sum + es.length = (es.map (Entry.inLines true)).sum + typedCount es := by
+  induction es with
+  | nil => simp [typedCount]
+  | cons e es ih =>
+    have h1 := h e (by simp)
+    have ih' := ih (fun x hx => h x (List.mem_cons_of_mem _ hx))
+    simp only [List.map_cons, List.sum_cons, typedCount, List.filter_cons, List.length_cons] at ih' ⊢
+    by_cases ht : e.typed <;> simp [Entry.outLines, Entry.inLines, Entry.paramLines, ht] <;> omega
+
+/-- numpy (every entry has a description): `:param` of entry `k` is `2 + k − typedBefore` lines
+*above* the line the entry is written on -/
+theorem napoleon_param_divergence_numpy (hdr : Nat) (es : List Entry) (k : Nat) (hk : k ≤ es.length)
+    (h : ∀ e ∈ es, 1 ≤ e.extra) :
+    paramOutLine true hdr es k + 2 + k = entryInLine true hdr es k + typedCount (es.take k) := by
+  have := sum_out_numpy (es.take k) (fun e he => h e (List.mem_of_mem_take he))
+  have hl : (es.take k).length = k := by simp [List.length_take, Nat.min_eq_left hk]
+  rw [hl] at this
+  simp only [paramOutLine, entryInLine, headerLines, ↓reduceIte]
+  omega
+
+example : paramOutLine false 5 [⟨true, 1⟩, ⟨false, 0⟩, ⟨true, 0⟩] 2 = 9 ∧
+    entryInLine false 5 [⟨true, 1⟩, ⟨false, 0⟩, ⟨true, 0⟩] 2 = 9 ∧
+    typeOutLine false 5 [⟨true, 1⟩, ⟨false, 0⟩, ⟨true, 0⟩] 2 = 10 := by decide
+
 end Lineno
